@@ -386,7 +386,7 @@ func forkAndExecInChild(r *Runner, argv0 *byte, argv, env []*byte, workdir, host
 		if err1 != 0 {
 			childExitError(pipe, LocDropCapability, err1)
 		}
-		_, _, err1 = syscall.RawSyscall(syscall.SYS_CAPSET, uintptr(unsafe.Pointer(&dropCapHeader)), uintptr(unsafe.Pointer(&dropCapData)), 0)
+		_, _, err1 = syscall.RawSyscall(syscall.SYS_CAPSET, uintptr(unsafe.Pointer(&dropCapHeader)), uintptr(unsafe.Pointer(&dropCapData[0])), 0)
 		if err1 != 0 {
 			childExitError(pipe, LocSetCap, err1)
 		}
@@ -419,7 +419,7 @@ func forkAndExecInChild(r *Runner, argv0 *byte, argv, env []*byte, workdir, host
 					if err1 != 0 {
 						childExitError(pipe, LocKeepCapability, err1)
 					}
-					_, _, err1 = syscall.RawSyscall(syscall.SYS_CAPSET, uintptr(unsafe.Pointer(&dropCapHeader)), uintptr(unsafe.Pointer(&dropCapData)), 0)
+					_, _, err1 = syscall.RawSyscall(syscall.SYS_CAPSET, uintptr(unsafe.Pointer(&dropCapHeader)), uintptr(unsafe.Pointer(&dropCapData[0])), 0)
 					if err1 != 0 {
 						childExitError(pipe, LocSetCap, err1)
 					}
@@ -484,7 +484,7 @@ func forkAndExecInChild(r *Runner, argv0 *byte, argv, env []*byte, workdir, host
 					if err1 != 0 {
 						childExitError(pipe, LocKeepCapability, err1)
 					}
-					_, _, err1 = syscall.RawSyscall(syscall.SYS_CAPSET, uintptr(unsafe.Pointer(&dropCapHeader)), uintptr(unsafe.Pointer(&dropCapData)), 0)
+					_, _, err1 = syscall.RawSyscall(syscall.SYS_CAPSET, uintptr(unsafe.Pointer(&dropCapHeader)), uintptr(unsafe.Pointer(&dropCapData[0])), 0)
 					if err1 != 0 {
 						childExitError(pipe, LocSetCap, err1)
 					}
